@@ -37,7 +37,7 @@ const verifStrLitAnyMaxL = 4
 // H_c17_strlit_any: the string-literal sub-lexer accepts any bytes (quoted and unquoted
 // mode) without panicking and loses nothing: its slices concatenate to the input.
 func H_c17_strlit_any() {
-	L := nondet_choice("L", verifStrLitAnyMaxL+1)
+	L := nondet_choice("L", verif_bound("strlit-maxL", verifStrLitAnyMaxL, 5)+1)
 	quoted := nondet_bool("quoted")
 	src := nondet_bytes("src", L)
 	parts := scanStringLit(src, quoted)
@@ -73,7 +73,7 @@ const hexdL = "0123456789abcdef"
 // $${ and %%{ for template markers), decodes to exactly that value with no error, and every
 // diagnostic's range lies inside the token.
 func H_c14_strlit() {
-	n := nondet_choice("value-len", 3)
+	n := nondet_choice("value-len", verif_bound("strlit-value-len", 2, 3)+1)
 	var value, spelled []byte
 	afterHex := false
 	for i := 0; i < n; i++ {
